@@ -139,6 +139,15 @@ func c08Inputs(docs []vDoc, n int) [][]byte {
 		out = append(out, b)
 	}
 	out = append(out, []byte("zqa aa bb cc aa bb zqb"), []byte("é aa bb cc aa bb 世"), nil, []byte("\xff"))
+	// mixed line terminators: LF, CRLF, a lone CR and LF CR in turn (a reader boundary can fall
+	// between any two of these bytes)
+	ls := strings.Split("zqaxav head\n"+string(docs[0].Bytes), "\n")
+	var mixed strings.Builder
+	for i, l := range ls {
+		mixed.WriteString(l)
+		mixed.WriteString([]string{"\n", "\r\n", "\r", "\n\r", "\n"}[i%5])
+	}
+	out = append(out, []byte(mixed.String()))
 	return out
 }
 
